@@ -20,6 +20,7 @@ Alphabet ==
     Row("CashDividend", 2, "", "", "", "6.00", "plain", FALSE),
     Row("QualifiedDividend", 2, "", "", "", "3.25", "plain", FALSE),
     Row("CashDividend", 3, "", "", "", "", "plain", FALSE),        \* blank amount
+    Row("LongTermCapGain", 2, "", "", "", "", "plain", FALSE),     \* blank amount on a day that has a real dividend and withholding
     Row("NraWithholding", 2, "", "", "", "-1.50", "plain", FALSE),
     Row("NraTaxAdj", 2, "", "", "", "-0.25", "plain", FALSE),
     Row("NraWithholding", 3, "", "", "", "-0.75", "plain", FALSE), \* no dividend that day
